@@ -275,7 +275,17 @@ def check_files(acc, b, g, assign):
                         else:
                             kinds.add("per-file-graph-lists-extra-mainline-revision")
                     for x in only_d:
-                        if assign[x] is None:
+                        # revisions x merged (nested under x in the listing) that certainly own a
+                        # per-file text: one parent at most and a file state unlike that parent's
+                        lpx = g.lp(x)
+                        merged = [y for y in view if y != x and y in ref.anc(x)
+                                  and (lpx is None or y not in ref.anc(lpx))]
+                        definite = [y for y in merged if len(dag[y]) <= 1 and touched(y) and assign[y] is not None]
+                        if definite:
+                            kinds.add("per-file-graph-omits-mainline-merge-of-a-revision-that-changed-the-file")
+                        elif len(dag[x]) <= 1 and touched(x) and assign[x] is not None:
+                            kinds.add("per-file-graph-omits-mainline-revision-that-changed-the-file")
+                        elif assign[x] is None:
                             kinds.add("per-file-graph-omits-revision-that-removes-the-file")
                         elif len(dag[x]) > 1:
                             kinds.add("per-file-graph-omits-merge-that-changes-file-wrt-left-parent")
@@ -292,7 +302,7 @@ def check_files(acc, b, g, assign):
 def _work_graph(chunk):
     from breezy.branch import Branch
     dw.quiet_trace()
-    acc = par.Acc()
+    acc = dw.Acc()
     for dag in chunk:
         store, url = dw.build(dag)
         try:
@@ -308,7 +318,7 @@ def _work_files(chunk):
     from breezy.branch import Branch
     from mc import world as mw
     dw.quiet_trace()
-    acc = par.Acc()
+    acc = dw.Acc()
     for dag, assign in chunk:
         trees = {}
         for i, s in enumerate(assign):
